@@ -211,6 +211,47 @@ def main():
         except Exception as e:
             mism.append(dict(fam=fam, kind='unsound-after-class-attribute-juggling', real=repr(e)))
         del c
+    # ---- (e) objects that only claim to be C containers (the pure-Python twins report the C classes as their __class__),
+    #          and junk, where the C code follows pointers: operands of set operations are iterated like any iterable,
+    #          states naming them as successor / first leaf are refused - nothing is read as a C struct that is not one
+    PBT, PBU, PTS, PSE = embed.classes(fam, 'py')
+    M = embed.module_of(fam)
+    ks_ = [key(i) for i in range(6)]
+    cset, pset = SE(ks_[:4]), PSE(ks_[2:])
+    try:
+        for fn_, want in ((M.union, ks_), (M.intersection, ks_[2:4]), (M.difference, ks_[:2])):
+            for a_, b_ in ((cset, pset), (TS(ks_[:4]), PTS(ks_[2:]))):
+                got = list(fn_(a_, b_))
+                counts['twin_operands'] = counts.get('twin_operands', 0) + 1
+                if [k for k in got] != want:
+                    mism.append(dict(fam=fam, kind='python-twin-as-operand', op=fn_.__name__, real=repr(got)[:120], model=repr(want)[:120]))
+        if list(cset | pset) != ks_ or list(cset & pset) != ks_[2:4] or list(cset - pset) != ks_[:2]:
+            mism.append(dict(fam=fam, kind='python-twin-as-operand', op='operators'))
+    except Exception as e:
+        mism.append(dict(fam=fam, kind='python-twin-as-operand-raises', real=repr(e)[:120]))
+    items1 = (key(1),) if False else None
+    for cls_, pycls, mk in ((BU, PBU, lambda c: c({key(1): val(1)})), (SE, PSE, lambda c: c([key(1)]))):
+        st = mk(cls_).__getstate__()[0]
+        for label, nxt in (('python-twin', mk(pycls)), ('int', 42), ('other-kind', SE([key(1)]) if cls_ is BU else BU({key(1): val(1)}))):
+            b = cls_()
+            try:
+                b.__setstate__((st, nxt))
+                mism.append(dict(fam=fam, kind='successor-accepted', container=cls_.__name__, what=label))
+            except TypeError:
+                pass
+            counts['junk_states'] = counts.get('junk_states', 0) + 1
+    for tcls, lcls, plcls in ((BT, BU, PBU), (TS, SE, PSE)):
+        l0 = lcls({key(1): val(1)}) if lcls is BU else lcls([key(1)])
+        l1 = lcls({key(3): val(3)}) if lcls is BU else lcls([key(3)])
+        l0.__setstate__((l0.__getstate__()[0], l1))
+        for label, fb in (('python-twin', plcls({key(1): val(1)}) if lcls is BU else plcls([key(1)])), ('int', 42)):
+            t = tcls()
+            try:
+                t.__setstate__(((l0, key(3), l1), fb))
+                mism.append(dict(fam=fam, kind='firstbucket-accepted', container=tcls.__name__, what=label))
+            except TypeError:
+                pass
+            counts['junk_states'] = counts.get('junk_states', 0) + 1
     embed.restore_sizes(old)
     json.dump(dict(counts=counts, mismatches=mism[:40]), open(sys.argv[2], 'w'), default=repr)
 
